@@ -17,6 +17,8 @@ class State(object):
         self.events = []       # call events (name, args, result) in order
         self.yields = []       # values yielded by a generator under analysis
         self.fresh_objs = set()  # oids allocated on this path
+        self.written = set()     # M2: heap keys assigned (or havocked) on this path, as opposed to lazily read
+        self.oterms = {}         # M2: term id -> z3 term of an opaque object whose attribute was stored
 
     def fork(self):
         s = State()
@@ -28,6 +30,8 @@ class State(object):
         s.events = list(self.events)
         s.yields = list(self.yields)
         s.fresh_objs = set(self.fresh_objs)
+        s.written = set(self.written)
+        s.oterms = dict(self.oterms)
         return s
 
     def assume(self, f):
